@@ -11,4 +11,8 @@ CLAIMED = {
   technique="TLA+ spec (Lists.tla: reference cycles + transcribed pointer updates; SHList.tla) model-checked by TLC; state-graph edge cover replayed on real C/C++ dlist, slist, hlist; traces validated by TLC",
   text="TLC checks for all histories over 2 heads x 3 nodes (2-3 heads x 4 nodes thorough), both flavours, that the transcribed four-pointer updates implement the reference list semantics (forward = reference, backward = reverse, neighbours point back, removed cells unreachable, unlinked cells self-linked); every edge of that graph is replayed on the real lists and every observation (iterator traversals both ways, size, empty, is_linked, dlist_in, raw next/prev) is judged by the trace spec; random scripts reach 3 heads x 8 nodes.",
   note=NOTE),
+ "C16": dict(
+  technique="TLA+ spec (Timers.tla: nondeterministic reference scheduler RefExec + implementation-shaped ImplExec) model-checked by TLC; state-graph edge cover replayed on timer_manager with scripted callbacks; firing sequences validated by TLC",
+  text="TLC checks for every reachable scheduler state (2 timers; 3 thorough; callback menu: none/unplan/plan self or other) and every time step that the implementation-shaped exec loop produces a firing sequence the reference accepts (never early, deadline order, nothing due left, catch-up one firing per period) and the same end state; every edge is replayed on igris::timer_manager and each recorded exec (firing order, planned flags, finish times, emptiness, time to next deadline) is judged; stimer check/swift/plan against its due rule.",
+  note=NOTE),
 }
